@@ -528,6 +528,18 @@ class Real:
         }
         self.named = {}      # task name -> task object
 
+    @classmethod
+    def from_manager(cls, mgr):
+        """wrap an existing manager (e.g. an unpickled copy): containers and refs are the manager's own"""
+        import xdeps
+        self = cls.__new__(cls)
+        self.xd = xdeps
+        self.m = mgr
+        self.refs = dict(mgr.containers)
+        self.roots = {k: r._owner for k, r in mgr.containers.items()}
+        self.named = {}
+        return self
+
     def ref(self, key):
         return E.build_loc(ast_loc(key), self.refs, ATTR_ITEM_LABELS)
 
